@@ -4,7 +4,7 @@ package main
 // placement.  Sessions of 20..400 lines over 2..5 verbs (0..3 foreground, 0..2 background
 // handlers each), a 001 line, the connection left up / ended by EOF / by a user Close().
 func init() {
-	props["C03"] = &Prop{Gen: c03Gen, Exec: dspExec, Setup: dspSetup, Class: dspClass}
+	props["C03"] = &Prop{Gen: c03Gen, Exec: dspRunChild, Class: dspClass}
 }
 
 func c03Gen(r *Rand, tier string, scale int, emit func(Fields)) {
